@@ -120,12 +120,45 @@ func parseMemberID(s string) b6.FeatureID {
 	return pathID(v)
 }
 
+func valueText(v b6.Expression) string {
+	if es, ok := v.AnyExpression.(b6.Expressions); ok { // a list value: <e,e,e>
+		ys := make([]string, len(es))
+		for i, e := range es {
+			switch e := e.(type) {
+			case nil:
+				ys[i] = ""
+			case b6.FeatureIDExpression:
+				ys[i] = memberIDText(b6.FeatureID(e))
+			default:
+				ys[i] = e.String()
+			}
+		}
+		return "<" + strings.Join(ys, ",") + ">"
+	}
+	return v.String()
+}
+
 func tagsText(t b6.Tags) string {
 	xs := make([]string, len(t))
 	for i, tag := range t {
-		xs[i] = tag.Key + "=" + tag.Value.String()
+		xs[i] = tag.Key + "=" + valueText(tag.Value)
 	}
 	return "t" + hx.List(xs)
+}
+
+func listLen(f ingest.Feature, k string) int {
+	es, _ := f.Get(k).Value.AnyExpression.(b6.Expressions)
+	return len(es)
+}
+
+func listHas(f ingest.Feature, k string, e string) bool {
+	es, _ := f.Get(k).Value.AnyExpression.(b6.Expressions)
+	for _, x := range es {
+		if id, ok := x.(b6.FeatureIDExpression); ok && memberIDText(b6.FeatureID(id)) == e {
+			return true
+		}
+	}
+	return false
 }
 
 type kind int
@@ -140,6 +173,17 @@ const (
 var kindWord = []string{"generic", "area", "relation", "collection"}
 var kindLetter = []string{"g", "a", "r", "c"}
 var kindType = []b6.FeatureType{b6.FeatureTypePoint, b6.FeatureTypeArea, b6.FeatureTypeRelation, b6.FeatureTypeCollection}
+
+// fid: generic features with id >= 20 are paths (list-valued `path` tag), below that points
+func fid(k kind, v uint64) b6.FeatureID {
+	t := kindType[k]
+	if k == kGeneric && v >= 20 {
+		t = b6.FeatureTypePath
+	}
+	return b6.FeatureID{Type: t, Namespace: ns, Value: v}
+}
+
+var pathVarIDs = []uint64{20, 21, 22}
 
 func kindOf(f ingest.Feature) kind {
 	switch f.(type) {
@@ -328,7 +372,7 @@ func newWorld(which int) ingest.MutableWorld {
 var worldName = []string{"basic", "overlay", "overlay-over-base"}
 
 func (r *run) opNew(k kind, idv uint64, n int) {
-	id := b6.FeatureID{Type: kindType[k], Namespace: ns, Value: idv}
+	id := fid(k, idv)
 	r.do(fmt.Sprintf("new %s %d %d", kindWord[k], idv, n), func() string {
 		var f ingest.Feature
 		switch k {
@@ -444,7 +488,7 @@ func (r *run) mut(i int, m string) {
 	r.do(fmt.Sprintf("mut %d %s", i, m), func() string {
 		switch ws[0] {
 		case "setid":
-			f.SetFeatureID(b6.FeatureID{Type: kindType[kindOf(f)], Namespace: ns, Value: uint64(atoi(ws[1]))})
+			f.SetFeatureID(fid(kindOf(f), uint64(atoi(ws[1]))))
 		case "settags":
 			var ts []b6.Tag
 			for _, s := range list(rest(1)) {
@@ -464,6 +508,15 @@ func (r *run) mut(i int, m string) {
 			f.RemoveTags(list(rest(1)))
 		case "rmall":
 			f.RemoveAllTags()
+		case "setat": // ModifyOrAddTagAt: b6.Set on the list value
+			f.ModifyOrAddTagAt(b6.Tag{Key: ws[1], Value: b6.NewFeatureIDExpression(parseMemberID(ws[3]))}, atoi(ws[2]))
+		case "setlist": // a list value the caller built with spare capacity
+			es := list(rest(3))
+			xs := make([]b6.AnyExpression, len(es), len(es)+atoi(ws[2]))
+			for j, e := range es {
+				xs[j] = b6.FeatureIDExpression(parseMemberID(e))
+			}
+			f.ModifyOrAddTag(b6.Tag{Key: ws[1], Value: b6.NewExpressions(xs)})
 		case "setpathids":
 			ids := []b6.FeatureID{}
 			for _, s := range list(rest(2)) {
@@ -542,9 +595,15 @@ func randMutator(r *hx.Rand, f ingest.Feature) string {
 	if a, ok := f.(*ingest.AreaFeature); ok && a.Len() == 0 && !r.Chance(1, 10) {
 		return "settag " + randTag(r) // nothing to index in an area without members
 	}
+	if kindOf(f) == kGeneric && f.Get(b6.PathTag).IsValid() && r.Chance(1, 3) {
+		return listEdit(r, f)
+	}
 	if r.Chance(2, 5) || kindOf(f) == kGeneric {
 		switch r.Intn(12) {
 		case 0:
+			if kindOf(f) == kGeneric && f.FeatureID().Value >= 20 {
+				return fmt.Sprintf("setid %d", pick64(r, pathVarIDs))
+			}
 			return fmt.Sprintf("setid %d", pick64(r, idRange[kindOf(f)]))
 		case 1:
 			n := r.Intn(4)
@@ -800,6 +859,102 @@ func inPlace(r *hx.Rand, f ingest.Feature, i int) string {
 	return ""
 }
 
+// ---- list-valued tags: a path's points --------------------------------------------------------------
+//
+// Tags.Clone / copy / append copy Tag structs, so clones, FromWorld copies, MergeFrom receivers and the
+// world's entry all point to the SAME list of points.  ModifyOrAddTagAt (b6.Set) must therefore never
+// write into an existing list: every holder extends (index == len) and overwrites (index < len) the list,
+// and all others are re-observed.
+
+func freshPoint(r *hx.Rand, f ingest.Feature) string {
+	for try := 0; try < 10; try++ {
+		e := fmt.Sprintf("n%d", 101+r.Intn(18))
+		if !listHas(f, b6.PathTag, e) {
+			return e
+		}
+	}
+	return fmt.Sprintf("n%d", 101+r.Intn(18))
+}
+
+// listEdit: extend at index == len (2 in 3), or overwrite an existing position
+func listEdit(r *hx.Rand, f ingest.Feature) string {
+	n := listLen(f, b6.PathTag)
+	i := n
+	if n > 0 && r.Chance(1, 3) {
+		i = r.Intn(n)
+	}
+	return fmt.Sprintf("setat %s %d %s", b6.PathTag, i, freshPoint(r, f))
+}
+
+func listCase(c *hx.Ctx) {
+	r := c.Rand
+	run := newRun(c, r.Intn(3))
+	c.Note("scenario:list")
+	id := pick64(r, pathVarIDs)
+	run.opNew(kGeneric, id, 0)
+	// the path: built point by point, or handed over as a list with spare capacity
+	npts := 2 + r.Intn(4)
+	if r.Chance(1, 3) {
+		var es []string
+		for j := 0; j < npts; j++ {
+			es = append(es, fmt.Sprintf("n%d", 101+(r.Intn(3)+3*j)%18))
+		}
+		run.mut(0, fmt.Sprintf("setlist %s %d %s", b6.PathTag, r.Intn(4), hx.List(es)))
+		c.Note("list:built-with-spare-capacity")
+	} else {
+		for j := 0; j < npts; j++ {
+			run.mut(0, fmt.Sprintf("setat %s %d %s", b6.PathTag, j, freshPoint(r, run.vars[0])))
+		}
+		c.Note("list:built-point-by-point")
+	}
+	c.Note(fmt.Sprintf("list:points:%d", npts))
+	if r.Chance(1, 2) {
+		run.mut(0, "addtag "+randTag(r))
+	}
+	stored := run.opAdd(0) == "ok"
+	holders := []int{0}
+	if r.Chance(3, 4) {
+		run.opClone(0)
+		holders = append(holders, len(run.vars)-1)
+	}
+	if stored && r.Chance(3, 4) {
+		run.opFromWorld(run.added[key(kGeneric, fid(kGeneric, id))])
+		holders = append(holders, len(run.vars)-1)
+	}
+	if r.Chance(1, 2) {
+		run.opNew(kGeneric, pick64(r, pathVarIDs), 0)
+		recv := len(run.vars) - 1
+		run.opMerge(recv, holders[r.Intn(len(holders))])
+		holders = append(holders, recv)
+	}
+	c.Note(fmt.Sprintf("list:holders:%d", len(holders)))
+	rounds := 3 + r.Intn(6)
+	for round := 0; round < rounds; round++ {
+		v := holders[r.Intn(len(holders))]
+		m := listEdit(r, run.vars[v])
+		if strings.Fields(m)[2] == fmt.Sprint(listLen(run.vars[v], b6.PathTag)) {
+			c.Note("list:extend-at-len")
+		} else {
+			c.Note("list:overwrite")
+		}
+		run.mut(v, m)
+		if r.Chance(1, 4) {
+			// the world takes the holder's current value (MergeFrom: the entry now shares its lists)
+			if run.opAdd(v) == "ok" {
+				c.Note("list:readd")
+			}
+		}
+		if r.Chance(1, 6) && len(run.vars) < 7 {
+			run.opClone(v)
+			holders = append(holders, len(run.vars)-1)
+		}
+	}
+	for step := r.Intn(5); step > 0; step-- {
+		randomStep(run, r, kGeneric)
+	}
+	run.finish()
+}
+
 func growCase(c *hx.Ctx) {
 	r := c.Rand
 	run := newRun(c, r.Intn(3))
@@ -874,7 +1029,7 @@ func growCase(c *hx.Ctx) {
 		c.Note("grow:clone-of-grown")
 	}
 	if replaced && r.Chance(2, 3) {
-		run.opFromWorld(run.added[key(k, b6.FeatureID{Type: kindType[k], Namespace: ns, Value: id})])
+		run.opFromWorld(run.added[key(k, fid(k, id))])
 		targets = append(targets, len(run.vars)-1)
 		c.Note("grow:copy-from-world")
 	}
@@ -927,7 +1082,7 @@ func growCase(c *hx.Ctx) {
 			c.Note("grow:append-through-holder:" + kw)
 		}
 		if replaced {
-			a := run.added[key(k, b6.FeatureID{Type: kindType[k], Namespace: ns, Value: id})]
+			a := run.added[key(k, fid(k, id))]
 			for _, tk := range tagKeys {
 				if !run.w.FindFeatureByID(a.id).Get(tk).IsValid() {
 					run.opWorldTag(a, tk, "wy")
@@ -939,7 +1094,7 @@ func growCase(c *hx.Ctx) {
 	}
 	// 5. the other direction: the world edits its (grown) entry in place
 	if replaced && r.Bool() {
-		a := run.added[key(k, b6.FeatureID{Type: kindType[k], Namespace: ns, Value: id})]
+		a := run.added[key(k, fid(k, id))]
 		if t := run.w.FindFeatureByID(a.id).AllTags(); len(t) > 0 {
 			run.opWorldTag(a, t[len(t)-1].Key, fmt.Sprintf("w%d", r.Intn(10)))
 			c.Note("grow:world-edits-last-tag")
@@ -1004,6 +1159,26 @@ func corpus(c *hx.Ctx) {
 		r.mut(9, "settag name=COPY")
 		r.mut(9, "setkey 0 COPYK")
 		r.opWorldTag(added{kArea, b6.FeatureID{Type: b6.FeatureTypeArea, Namespace: ns, Value: 100}}, "name", "WORLD")
+		// list-valued tags (seeded C38-3: b6.Set appending in place): a path's points are shared by the clone,
+		// the copy from the world and the world's entry; every holder extends at index == len
+		r.opNew(kGeneric, 20, 0)
+		r.mut(10, "setat path 0 n101")
+		r.mut(10, "setat path 1 n102")
+		r.mut(10, "setat path 2 n104")
+		r.opAdd(10)
+		r.opClone(10)
+		r.opFromWorld(added{kGeneric, fid(kGeneric, 20)})
+		r.mut(10, "setat path 3 n107")
+		r.mut(11, "setat path 3 n110")
+		r.mut(12, "setat path 3 n113")
+		r.mut(11, "setat path 0 n116")
+		r.opAdd(11)
+		r.mut(11, "setat path 4 n105")
+		r.mut(10, "setat path 4 n108")
+		r.mut(12, "setlist path 3 [n101 n102]")
+		r.opClone(12)
+		r.mut(12, "setat path 2 n104")
+		r.mut(13, "setat path 2 n107")
 	}
 	c.NonTrivial()
 }
@@ -1011,13 +1186,15 @@ func corpus(c *hx.Ctx) {
 func main() {
 	hx.Main(hx.Family{
 		Name: "c38",
-		Rule: "1 case in 3: the grown-value scenario (a short value is stored, then replaced / merged by a longer one - more members, polygons, path ids, keys+values, tags -, then elements beyond the old length are mutated in place through the grown value, a clone of it, a MergeFrom receiver and a copy taken back from the world (NewFeatureFromWorld), then every holder and the world append; buckets grow:*); otherwise random interleavings (8-29 ops) of new/Clone/MergeFrom/NewFeatureFromWorld/every feature mutator/world.AddFeature/world.AddTag/RemoveTag over generic, area, relation and collection features and three kinds of mutable world (basic, overlay, overlay over a base holding the referenced paths); ids from small ranges so that adds replace earlier entries; 1 in 40 indices out of range (must panic and change nothing); non-trivial = at least one mutation of a value that had been added to the world, cloned, or is a clone (or a world-side tag edit); distinct = by hash of the op text",
+		Rule: "1 case in 6: the list-value scenario (a path built point by point or handed over with spare capacity, stored, cloned, copied back from the world, merged; every holder extends the list at index == len and overwrites positions via ModifyOrAddTagAt, the world re-takes holders; buckets list:*); 1 case in 3: the grown-value scenario (a short value is stored, then replaced / merged by a longer one - more members, polygons, path ids, keys+values, tags -, then elements beyond the old length are mutated in place through the grown value, a clone of it, a MergeFrom receiver and a copy taken back from the world (NewFeatureFromWorld), then every holder and the world append; buckets grow:*); otherwise random interleavings (8-29 ops) of new/Clone/MergeFrom/NewFeatureFromWorld/every feature mutator/world.AddFeature/world.AddTag/RemoveTag over generic, area, relation and collection features and three kinds of mutable world (basic, overlay, overlay over a base holding the referenced paths); ids from small ranges so that adds replace earlier entries; 1 in 40 indices out of range (must panic and change nothing); non-trivial = at least one mutation of a value that had been added to the world, cloned, or is a clone (or a world-side tag edit); distinct = by hash of the op text",
 		Quick:    2500,
 		Thorough: 80000,
 		Corpus:   corpus,
 		Case: func(c *hx.Ctx) {
 			if c.CaseNo%3 == 0 {
 				growCase(c)
+			} else if c.CaseNo%6 == 1 {
+				listCase(c)
 			} else {
 				randomCase(c)
 			}
